@@ -579,6 +579,14 @@ def r12(ctx, func, fr, sym, stores):
 # ----------------------------------------------------------------------
 # R1.3
 
+def _lines_param(func):
+    """name of the parameter of write_text that holds the lines"""
+    params = [a.arg for a in func.args.args]
+    if len(params) != 4:
+        raise AnalysisError(f"{func.name}: signature changed: {params}")
+    return params[3]
+
+
 def r13(ctx, func, fr):
     cfg = CFG(func)
     D = fr.D
@@ -599,21 +607,24 @@ def r13(ctx, func, fr):
         raise AnalysisError(f"write_text: dtype `{short(dt, 40)}` of the new "
                             f"dataset not recognised")
     # M = max(M, len(B)) unconditionally in a loop over all lines
-    upd = [n for n in walk(func) if isinstance(n, ast.Assign)
-           and len(n.targets) == 1 and isinstance(n.targets[0], ast.Name)
-           and n.targets[0].id == M and isinstance(n.value, ast.Call)
-           and call_name(n.value) == "max"]
+    upd = [n for n in walk(func) if isinstance(n, (ast.Assign, ast.AugAssign))
+           and any(isinstance(t, ast.Name) and t.id == M for t in (
+               n.targets if isinstance(n, ast.Assign) else [n.target]))
+           and _loop_of(n, func) is not None]
     if len(upd) != 1:
-        raise AnalysisError(f"write_text: expected one `{M} = max(...)`")
+        raise AnalysisError(f"write_text: expected one update of `{M}` in "
+                            f"the loop over the lines, found {len(upd)}")
     upd = upd[0]
     loop = upd.parent
-    args = upd.value.args
+    args = upd.value.args if isinstance(upd.value, ast.Call) and call_name(
+        upd.value) == "max" and isinstance(upd, ast.Assign) else []
     lens = [a for a in args if isinstance(a, ast.Call)
             and call_name(a) == "len" and len(a.args) == 1
             and isinstance(a.args[0], ast.Name)]
     keeps = [a for a in args if isinstance(a, ast.Name) and a.id == M]
     ok = (isinstance(loop, ast.For) and upd in loop.body
-          and isinstance(loop.iter, ast.Name) and loop.iter.id == "lines"
+          and isinstance(loop.iter, ast.Name)
+          and loop.iter.id == _lines_param(func)
           and len(args) == 2 and len(lens) == 1 and len(keeps) == 1)
     ctx.ob("R1.3", ok, f"`{M}` is the running maximum over every line"
            if ok else f"`{M}` is not updated as max({M}, len(<line>)) for "
@@ -847,8 +858,12 @@ def r14(ctx, repo):
             n0_info["read"] = n0_info["read"] or node
             return S("n0")
         if isinstance(node, ast.IfExp) and _is_presence(node.test, events):
-            a, b = s.rat(node.body), s.rat(node.orelse)
-            if a.same(S("n0")) and b.same(K(0)):
+            try:
+                a, b = s.rat(node.body), s.rat(node.orelse)
+                good = a.same(S("n0")) and b.same(K(0))
+            except AnalysisError:
+                good = False
+            if good:
                 return S("n0")
             n0_info["bad"] = node
             return S("n0?")
@@ -862,8 +877,12 @@ def r14(ctx, repo):
                     tv = [v for v in vals if v.parent in iff.body]
                     fv = [v for v in vals if v.parent in iff.orelse]
                     if len(tv) == 1 and len(fv) == 1:
-                        a, b = s.rat(tv[0]), s.rat(fv[0])
-                        if a.same(S("n0")) and b.same(K(0)):
+                        try:
+                            a, b = s.rat(tv[0]), s.rat(fv[0])
+                            good = a.same(S("n0")) and b.same(K(0))
+                        except AnalysisError:
+                            good = False
+                        if good:
                             return S("n0")
                         n0_info["bad"] = iff
                         return S("n0?")
@@ -1041,7 +1060,7 @@ def r15(ctx, repo):
     if not subs:
         raise AnalysisError("H5ContourEvent.__getitem__: group access lost")
     for k, sb in enumerate(subs):
-        ok = decimal_name_arg(sb.slice) is not None
+        ok = isinstance(decimal_name_arg(sb.slice), ast.Name)
         ctx.ob("R1.5", ok, "contours are looked up by the plain decimal "
                "event number" if ok else
                f"contour lookup key `{short(sb.slice, 30)}` is not the "
@@ -1334,7 +1353,9 @@ def r17(ctx, repo):
     sym.bind[ivar] = S("i")
     name = decimal_name_arg(kwarg(cd, "name", 0))
     if name is None:
-        raise AnalysisError("write_ragged: dataset name form not recognised")
+        # R1.5 reports the non-decimal name; nothing to decide here
+        ctx.note("R1.7 skipped: ragged dataset name is not a plain decimal")
+        return
     r = sym.rat(name)
     ok = r.same(S("cur") + S("i"))
     ctx.ob("R1.7", ok, "entry i of the call is named <stored count> + i"
@@ -1568,16 +1589,17 @@ def run(ctx):
     frt = find_frame(wt)
     # lines_as_bytes holds one entry per line
     lists = set()
+    lines = _lines_param(wt)
     for lp in walk(wt):
         if isinstance(lp, ast.For) and isinstance(lp.iter, ast.Name) \
-                and lp.iter.id == "lines":
+                and lp.iter.id == lines:
             for st in lp.body:
                 if isinstance(st, ast.Expr) and isinstance(
                         st.value, ast.Call) and last_attr(
                         st.value) == "append" and isinstance(
                         st.value.func.value, ast.Name):
                     lists.add(st.value.func.value.id)
-    symt = Sym(wt, {"lines"} | lists, S("n"))
+    symt = Sym(wt, {lines} | lists, S("n"))
     r11_frame(ctx, wt, frt, symt, "text")
     r13(ctx, wt, frt)
     r14(ctx, repo)
@@ -1587,5 +1609,172 @@ def run(ctx):
     r18(ctx, repo)
 
 
-MUTANTS = []
-TWINS = []
+
+def _event_count_from_feature_number(src):
+    """applies to the tree before and after the F01b repair"""
+    a = ('            self.h5file.attrs["experiment:event count"] = len(\n'
+         '                self.h5file["events"][feats[0]])\n')
+    b = ('            self.h5file.attrs["experiment:event count"] = '
+         'len(feat0)\n')
+    rep = ('            self.h5file.attrs["experiment:event count"] = '
+           'len(feats)\n')
+    for old in (a, b):
+        if src.count(old) == 1:
+            return src.replace(old, rep)
+    return src
+
+
+MUTANTS = [
+    # R1.1
+    ("ndarray: offset read after the resize", WR,
+     ("            offset = dset.shape[0]\n"
+      "            dset.resize(offset + data.shape[0], axis=0)\n",
+      "            dset.resize(dset.shape[0] + data.shape[0], axis=0)\n"
+      "            offset = dset.shape[0]\n"), "R1.1"),
+    ("ndarray: append starts at 0", WR,
+     ("            offset = dset.shape[0]\n", "            offset = 0\n"),
+     "R1.1"),
+    ("ndarray: resize by one event", WR,
+     ("dset.resize(offset + data.shape[0], axis=0)",
+      "dset.resize(offset + 1, axis=0)"), "R1.1"),
+    ("ndarray: chunk store ignores offset", WR,
+     ("dset[offset+start:offset+stop] = data[start:stop]",
+      "dset[start:stop] = data[start:stop]"), "R1.1"),
+    ("text: line stored at ii", WR,
+     ("txt_dset[line_offset + ii] = lbytes", "txt_dset[ii] = lbytes"),
+     "R1.1"),
+    # R1.2
+    ("remainder branch dropped", WR,
+     ("            if num_remain:\n"
+      "                start_e = num_chunks * chunk_size\n"
+      "                stop_e = start_e + num_remain\n"
+      "                dset[offset+start_e:offset+stop_e] = "
+      "data[start_e:stop_e]\n", ""), "R1.2"),
+    ("chunk loop one short", WR,
+     ("for ii in range(num_chunks):", "for ii in range(num_chunks - 1):"),
+     "R1.2"),
+    ("tile stop off by one", WR,
+     ("                stop = start + chunk_size\n",
+      "                stop = start + chunk_size - 1\n"), "R1.2"),
+    ("remainder starts one late", WR,
+     ("start_e = num_chunks * chunk_size",
+      "start_e = num_chunks * chunk_size + 1"), "R1.2"),
+    ("remainder one short", WR,
+     ("stop_e = start_e + num_remain", "stop_e = start_e + num_remain - 1"),
+     "R1.2"),
+    ("remainder guard skips a single event", WR,
+     ("            if num_remain:\n", "            if num_remain > 1:\n"),
+     "R1.2"),
+    # R1.3
+    ("width measured in characters", WR,
+     ("max_length = max(max_length, len(lbytes))",
+      "max_length = max(max_length, len(line))"), "R1.3"),
+    ("width of the last line only", WR,
+     ("max_length = max(max_length, len(lbytes))",
+      "max_length = len(lbytes)"), "R1.3"),
+    # R1.4
+    ("index taken from the caller", WR,
+     ("data=np.arange(nev0 + 1, nev0 + nev + 1),",
+      "data=np.atleast_1d(data),"), "R1.4"),
+    ("index restarts at 1 on append", WR,
+     ("np.arange(nev0 + 1, nev0 + nev + 1)", "np.arange(1, nev + 1)"),
+     "R1.4"),
+    # R1.5
+    ("logs written to another group", WR,
+     ('log_group = self.h5file.require_group("logs")',
+      'log_group = self.h5file.require_group("log")'), "R1.5"),
+    ("contour names zero-padded", WR,
+     ('"{}".format(curid + ii)', '"{:04d}".format(curid + ii)'), "R1.5"),
+    ("contour reader shifts the key", EV,
+     ("output.append(self.h5group[str(evid)][:])",
+      "output.append(self.h5group[str(evid + 1)][:])"), "R1.5"),
+    ("mask scale overflows uint8", WR,
+     ("np.asarray(data, dtype=np.uint8) * 255",
+      "np.asarray(data, dtype=np.uint8) * 256"), "R1.5"),
+    ("mask read back as uint8", EV,
+     ("return np.asarray(self.h5dataset[idx], dtype=bool)",
+      "return np.asarray(self.h5dataset[idx], dtype=np.uint8)"), "R1.5"),
+    ("log lines decoded as ascii", LG,
+     ('li.decode("utf")', 'li.decode("ascii")'), "R1.5"),
+    ("copier puts logs into tables", CP,
+     ('dst_loc=dst_h5file["logs"],', 'dst_loc=dst_h5file["tables"],'),
+     "R1.5"),
+    # R1.6
+    ("close not in finally", WR,
+     ("        finally:\n"
+      "            # This is guaranteed to run if any exception is raised.\n"
+      "            self.close()\n", "        self.close()\n"), "R1.6"),
+    ("event count is the number of features", WR,
+     _event_count_from_feature_number, "R1.6"),
+    # R1.7
+    ("ragged counter not advanced", WR,
+     ("            self._group_sizes[grp] += 1\n", ""), "R1.7"),
+    ("ragged names start one late", WR,
+     ('"{}".format(curid + ii)', '"{}".format(curid + ii + 1)'), "R1.7"),
+    ("ragged counter starts at 0 for a re-opened file", WR,
+     ("self._group_sizes[grp] = len(grp)", "self._group_sizes[grp] = 0"),
+     "R1.7"),
+    # R1.8
+    ("reset opens the file for appending", WR,
+     ('mode=("w" if mode == "reset" else "a")',
+      'mode=("w" if mode == "replace" else "a")'), "R1.8"),
+    ("replace keeps the old log", WR,
+     ('if name in group and self.mode == "replace":',
+      'if name in group and self.mode == "reset":'), "R1.8"),
+    ("features deleted in every mode but append", WR,
+     ('if feat in events and self.mode == "replace":',
+      'if feat in events and self.mode != "append":'), "R1.8"),
+]
+
+#: apply only to the tree with the repairs of F01 in place (the guarded
+#: re-creation in write_text); merge into MUTANTS once F01 is fixed
+MUTANTS_AFTER_FIX = [
+    ("F01 returns: width test inverted", WR,
+     ("and txt_dset.dtype.itemsize < max_length):",
+      "and txt_dset.dtype.itemsize > max_length):"), "R1.3"),
+    ("F01 returns: width test off by one", WR,
+     ("and txt_dset.dtype.itemsize < max_length):",
+      "and txt_dset.dtype.itemsize + 1 < max_length):"), "R1.3"),
+    ("re-created log loses the old lines", WR,
+     ("return self.write_text(group, name, old_lines + lines_as_bytes)",
+      "return self.write_text(group, name, lines_as_bytes)"), "R1.3"),
+    ("F01b returns: trace group length used", WR,
+     ('            if feats[0] == "trace" and len(feat0):\n'
+      '                # The "trace" group holds one dataset per trace '
+      'name.\n'
+      '                feat0 = feat0[sorted(feat0.keys())[0]]\n', ""),
+     "R1.6"),
+]
+
+TWINS = [
+    ("tile stop written as (ii + 1) * chunk", WR,
+     ("                stop = start + chunk_size\n",
+      "                stop = (ii + 1) * chunk_size\n")),
+    ("quotient and remainder via divmod", WR,
+     [("            num_chunks = len(data) // chunk_size\n",
+       "            num_chunks, num_remain = divmod(len(data), chunk_size)\n"),
+      ("            num_remain = len(data) % chunk_size\n", "")]),
+    ("remainder guard written as > 0", WR,
+     ("            if num_remain:\n", "            if num_remain > 0:\n")),
+    ("remainder source open-ended", WR,
+     ("data[start_e:stop_e]", "data[start_e:]")),
+    ("resize by len(data)", WR,
+     ("dset.resize(offset + data.shape[0], axis=0)",
+      "dset.resize(len(data) + offset, axis=0)")),
+    ("index as shifted arange", WR,
+     ("np.arange(nev0 + 1, nev0 + nev + 1)", "np.arange(nev) + nev0 + 1")),
+    ("stored index length as conditional expression", WR,
+     ('            if "index" in events:\n'
+      '                nev0 = len(events["index"])\n'
+      '            else:\n'
+      '                nev0 = 0\n',
+      '            nev0 = len(events["index"]) if "index" in events '
+      'else 0\n')),
+    ("ragged name via str()", WR,
+     ('"{}".format(curid + ii)', "str(curid + ii)")),
+    ("offset variables renamed", WR,
+     lambda s: s.replace("offset", "off0")),
+    ("text position written as ii + offset", WR,
+     ("txt_dset[line_offset + ii] = lbytes",
+      "txt_dset[ii + line_offset] = lbytes")),
+]
